@@ -28,7 +28,12 @@ enum Delay {
     Frac,
     /// 0.9 ms: less than a millisecond (not zero: still latency mode)
     SubMs,
+    /// one hedge after 20 ms, then none: f(1)=20 ms, f(k>=2)=Duration::MAX ("never")
+    Dyn20Never,
 }
+
+/// delay value (ms) standing for Duration::MAX
+const NEVER: u64 = u64::MAX / 4;
 
 impl Delay {
     /// configured delay before attempt k (k >= 1), in ms
@@ -44,6 +49,7 @@ impl Delay {
             Delay::Frac => 20,
             // ... and a gap g satisfies 0.9 ms iff g >= 1
             Delay::SubMs => 1,
+            Delay::Dyn20Never => if k == 1 { 20 } else { NEVER },
         }
     }
 }
@@ -99,6 +105,8 @@ impl Scenario for Hg {
     }
     fn init(&self, w: &mut World) -> X {
         let b = HedgeLayer::builder().max_hedged_attempts(self.max);
+        // (the configurations with three attempts register a no-op event listener)
+        let b = if self.max == 3 { b.on_event(tower_resilience_core::events::FnListener::new(|_e: &tower_resilience_hedge::HedgeEvent| {})) } else { b };
         let b = match self.delay {
             Delay::Fixed20 => b.delay(Duration::from_millis(20 * self.scale)),
             Delay::Immediate => b.no_delay(),
@@ -111,7 +119,11 @@ impl Scenario for Hg {
                 // it about any other hedge is an error of the layer, and panics here
                 b.delay_fn(move |k| {
                     assert!(k >= 1 && k < max.max(1), "delay function asked for hedge {k}, but only hedges 1..{} exist", max.max(1));
-                    Duration::from_millis(d.of(k) * scale)
+                    if d.of(k) == NEVER {
+                        Duration::MAX
+                    } else {
+                        Duration::from_millis(d.of(k) * scale)
+                    }
                 })
             }
         };
@@ -186,7 +198,7 @@ impl Scenario for Hg {
         // started the attempt, so spacing is judged in the other configurations only)
         for k in 1..if self.held_readiness { 0 } else { n } {
             let gap = g.calls[k].start_ms - g.calls[k - 1].start_ms;
-            let need = self.delay.of(k) * self.scale;
+            let need = self.delay.of(k).saturating_mul(self.scale);
             if gap < need {
                 out.push(Viol::new("hedge_too_early", site, format!("attempt {k} started {gap}ms after attempt {} (configured delay {need}ms)", k - 1)));
             }
@@ -317,6 +329,16 @@ impl Scenario for Hg {
             }
             w.tick();
         }
+        if w.callers[0].is_live() && self.delay == Delay::Dyn20Never && self.max == 3 {
+            // two attempts started and failed, the third is never due: the call keeps waiting
+            let g = w.inner.lock().unwrap();
+            let n = g.calls.len();
+            let failed = g.calls.iter().filter(|k| matches!(k.status, CallStatus::Err(_))).count();
+            drop(g);
+            if n == 2 && failed == 2 {
+                return "waiting-for-a-hedge-that-is-never-due".into();
+            }
+        }
         if w.callers[0].is_live() {
             out.push(Viol::new("never_resolves", site, "the hedged call is still pending after every attempt failed".to_string()));
             return "stuck".into();
@@ -341,6 +363,10 @@ fn configs(tier: Tier) -> Vec<Hg> {
                 continue;
             }
             v.push(Hg { max, delay, max_ticks: tier.pick(6, 10), held_readiness: false, late_ticks: 0, scale: 1 });
+        }
+        if max == 3 {
+            // "one hedge, then none": the delay of the second hedge is Duration::MAX
+            v.push(Hg { max, delay: Delay::Dyn20Never, max_ticks: tier.pick(5, 8), held_readiness: false, late_ticks: 0, scale: 1 });
         }
         if max == 3 {
             // a late executor: the woken call is polled up to two ticks late
